@@ -23,7 +23,7 @@ RULE = (
 )
 ASSUMPTIONS = [
     "reduced dimensions have size >= 2 (a single-argument backend call means 'reduce the whole array'); backend_kwargs are not generated",
-    "values are small integers stored as float64 so batching cannot hide behind a tolerance; comparison with rtol 1e-9 and atol 1e-7 (the batched std is sqrt(E[x^2]-E[x]^2): cancellation near zero leaves sqrt(eps))",
+    "values are small integers stored as float64 so batching cannot hide behind a tolerance; comparison with rtol 1e-9 and atol 1e-7; after a batched std -- documented as sqrt(E[x^2]-E[x]^2), whose rounding error is about sqrt(eps*n)*max|x| -- atol is 1e-6*max(1,max|x|), growing 30x per later step up to 1e-3",
     "the dimension order after broadcast is xarray's (only the set of dims is compared there); scalar (non-dimension) coordinates are ignored",
     "graphs are evaluated by a reference interpreter (substitution), not lowered or scheduled: that is C10/C01",
     "programs over xarray internals end as soon as a value is NaN: xarray reductions skip NaN by default (known finding F32 of C15)",
@@ -82,13 +82,21 @@ def compare(action, m: Model, step: int, op, order_strict: bool) -> Model:
         exp = np.asarray(m.M[idx], dtype="float64")
         if got.shape != exp.shape:
             raise Violation(f"after step {step} {op}: at {dict(zip(dims, idx))} value shape {got.shape} expected {exp.shape}", "value-shape")
-        if not np.allclose(got, exp, rtol=1e-9, atol=1e-7, equal_nan=True):
+        if not np.allclose(got, exp, rtol=1e-9, atol=max(1e-7, _TOL[0]), equal_nan=True):
             raise Violation(f"after step {step} {op}: at index {dict(zip(dims, idx))} value {got.tolist()} expected {exp.tolist()}", "value")
     return m
 
 
+# absolute tolerance of the running program. The batched standard deviation is documented as sqrt(E[x^2] - E[x]^2): its rounding error
+# is about sqrt(eps * n) * max|x| (1.2e-7 for four equal values of 8.16), not a few ulp; once such a step has run, the tolerance is
+# 1e-6 * max(1, max|x|) of its input and grows by the largest factor a later step can apply (values and scalars are <= ~30 in
+# magnitude), capped at 1e-3 -- wrong wiring, wrong batching or a wrong axis change values by >= 0.5 in these programs
+_TOL = [0.0]
+
+
 def run_case(prog) -> tuple[bool, list[str]]:
     _key[0] += 1
+    _TOL[0] = 0.0
     a, m = build_source(prog["src"], _key[0])
     classes: set[str] = set()
     m = compare(a, m, 0, "source", True)
@@ -96,12 +104,18 @@ def run_case(prog) -> tuple[bool, list[str]]:
     nt_b = False
     for i, op in enumerate(prog["ops"], 1):
         try:
+            scale_in = float(np.nanmax(np.abs(m.M))) if m.M.size and np.isfinite(m.M).any() else 1.0
             a, m, tags = apply_op(a, m, op, prog["src"]["xr"])
         except Violation:
             raise
         except Exception as e:
             raise Violation(f"step {i} {op} raised {type(e).__name__}: {e}", "op-raises")
         classes.update(tags)
+        if _TOL[0] > 0.0:
+            _TOL[0] = min(1e-3, _TOL[0] * 30.0)
+        if op[0] == "reduce" and op[1] == "std" and "batched" in tags:
+            _TOL[0] = max(_TOL[0], 1e-6 * max(1.0, scale_in))
+            classes.add("tolerance_widened_after_batched_std")
         if prog["src"]["xr"] and not np.isfinite(m.M).all():
             # see below: non-finite values (inf * 0 inside a reduction becomes NaN) leave the domain in which NumPy is the reference
             classes.add("nan_in_xarray_program_stopped")
